@@ -13,6 +13,12 @@ def mark(workdir):
         os.close(os.open(os.path.join(workdir, "__VERIF_MARK__"), os.O_RDONLY))
     except OSError:
         pass
+    lim = os.environ.get("VERIF_FSIZE")
+    if lim:
+        # "the disk is full after N bytes of any one file": the kernel completes the write up to the limit
+        # (a short write) and fails the next one with EFBIG (CPython ignores SIGXFSZ)
+        import resource
+        resource.setrlimit(resource.RLIMIT_FSIZE, (int(lim), int(lim)))
 
 
 def p_status(workdir):
